@@ -329,6 +329,12 @@ class Parser:
                 initialized to dict.
         """
 
+        if not self.in_layout:
+            # Coloring of the output (e.g. error messages) is a per-parser
+            # setting kept in a module-level flag. Other parsers constructed in
+            # the meantime might have changed it.
+            termui.colors = self.debug_colors
+
         if self.debug:
             a_print("*** PARSING STARTED", new_line=True)
 
